@@ -4,6 +4,7 @@ import hashlib
 from .. import facts
 from ..report import Check
 from .. import series, walk
+from . import algebra
 from .common import *
 from .c15 import XR, XA, ordinal
 
@@ -54,6 +55,10 @@ def run(tier):
     rational_arm_series(chk, F, bodies)
     asymptotic_arm(chk, F, bodies)
     purity(chk, F)
+    # (2b) the operations bessel.rs is built from (+ - * / between dual numbers, the chain rule behind sqrt / sin / cos / recip) are
+    # the operations of the truncated algebra: rule sets of C02 / C01, reused — purity reduces C14's derivative parts to exactly these
+    algebra.check_arith(chk, F, tag="ops")
+    algebra.check_chain_rules(chk, F, tag="ops-chain")
     chk.floor("bessel bodies", chk.analysed.get("bessel bodies", 0), 3)
     return chk.finish()
 
